@@ -3,7 +3,7 @@ from ..e1 import Harness
 
 PROP_ID = "C08"
 FEATURE = "c08"
-ENGINE = "E1 kani-cbmc"
+ENGINE = "E1 kani-cbmc + E2 mir-smt"
 QUICK_MAX_S = 135
 FUNCTIONS = ["edp_client::control::ControlMessage::{from_term, to_term, into_term}",
              "ControlMessageType::{from_u8, TryFrom<u8>}", "derived Clone of OwnedTerm on the element vector"]
@@ -58,6 +58,22 @@ CUTS = [r"collections::btree", r"BTreeMap", r"InternalFun as std::clone::Clone",
         r"Arc<str> as std::clone::Clone"]
 REC = [(r"OwnedTerm as std::clone::Clone>::clone", 0), (r"Vec<erltf::OwnedTerm> as std::clone::Clone>::clone", 1),
        (r"to_vec|ConvertVec", 1)]
+
+
+def extra_checks(tier, seed):
+    from . import c08_e2
+    out = []
+    c08_e2.run(out, TABLE, EXTRA_FIELDS)
+    return out
+
+
+def replay_case(case):
+    from . import c08_e2
+    e = case.get("e2") or {}
+    if "ctl" in e:
+        c08_e2._TABLE[:] = TABLE
+        return c08_e2.replay(*e["ctl"])
+    return None
 
 
 def bounds(tier):
